@@ -160,8 +160,15 @@ func values() []valueCase {
 	}
 }
 
-var keyVals = []string{"k", "a/b", "ключ/☃/\U0001F600", strings.Repeat("0123456789abcde/", 64)}
-var keyNames = []string{`"k"`, `"a/b"`, "unicode", "1KiB"}
+var keyVals = []string{"k", "a/b", "ключ/☃/\U0001F600", strings.Repeat("0123456789abcde/", 64),
+	// valid UTF-8 that JSON and Go quote differently: control characters (also NUL, BEL, VT,
+	// ESC), DEL, the line separators, a non-printable rune beyond the BMP, and the characters
+	// HTML-safe encoders escape
+	"bel\a/vt\v/soh\x01/nul\x00/esc\x1b[0m/del\x7f/ls\u2028\u2029/tag\U000E0001/<>&\"\\/\t\n\r\b\f"}
+// txID has the same kinds of characters as the last key
+const txID = "tx-✓-1\a\x7f\x00\U000E0001<&>"
+
+var keyNames = []string{`"k"`, `"a/b"`, "unicode", "1KiB", "control-characters"}
 
 const (
 	cInsert = iota
@@ -184,7 +191,7 @@ const (
 	oType
 )
 
-const customType = "custom/type ✓"
+const customType = "custom/type ✓\v\x1f\x7f\U000E0001"
 
 var fixedTime = time.Date(2024, 2, 29, 23, 59, 59, 123456789, time.FixedZone("", 5*3600+1800))
 
@@ -206,7 +213,7 @@ func optNames(mask int, rev bool) string {
 func buildOpts(mask int, rev bool) []state.ChangeOption {
 	var l []state.ChangeOption
 	if mask&oTxID != 0 {
-		l = append(l, state.WithTxID("tx-✓-1"))
+		l = append(l, state.WithTxID(txID))
 	}
 	if mask&oTimestamp != 0 {
 		l = append(l, state.WithTimestamp(fixedTime))
@@ -400,7 +407,7 @@ func (x vc[T]) runChange(e *env, cfg caseCfg) (out []finding) {
 	hasOld := cfg.Ctor == cUpdateOld || cfg.Ctor == cDeleteOld
 	wantTx := ""
 	if cfg.Opts&oTxID != 0 {
-		wantTx = "tx-✓-1"
+		wantTx = txID
 	}
 
 	// the message as constructed
